@@ -43,6 +43,8 @@ def parse(toks, i):
     if t == "#(":
         items, i = [], i + 1
         while toks[i] != ")":
+            if toks[i] == ".":
+                items.append(DOT); i += 1; continue
             x, i = parse(toks, i)
             items.append(x)
         return ("vec", items), i + 1
